@@ -1,7 +1,7 @@
 #!/bin/sh
 # tools/runall.sh [tier]  : run every registered check once, print one line each
 TIER="${1:-quick}"
-cd /verif
+cd "$(dirname "$0")/.."
 for p in $(python3 -c "import json; print(' '.join(c['property_id'] for c in json.load(open('MANIFEST.json'))['checks']))"); do
   S=$(date +%s)
   timeout 7200 ./check $p --tier $TIER > /tmp/runall_$p.log 2>&1; RC=$?
